@@ -29,6 +29,7 @@ type Behav struct {
 	Dup         bool   `json:"dup,omitempty"`         // a second bare Respond() after the answer
 	DupRace     bool   `json:"duprace,omitempty"`     // the answer is packed, then two goroutines call Respond() at the same instant
 	HoldDestroy bool   `json:"holddestroy,omitempty"` // the FidDestroy of this request\'s fid blocks until Release(key)
+	DelayUS     int    `json:"delayus,omitempty"`     // the implementation dwells this many microseconds before it answers
 	Size        int    `json:"size,omitempty"`        // answer size knob (stat name length, error text length, read bytes)
 	NoQid       int    `json:"noqid,omitempty"`       // Walk: answer only this many qids (+1), i.e. NoQid-1 qids; 0 = by name convention
 }
@@ -407,6 +408,9 @@ func (s *S) op(name string, req *go9p.SrvReq) {
 	}()
 	if b.Hold && gate != nil {
 		<-gate
+	}
+	if b.DelayUS > 0 {
+		time.Sleep(time.Duration(b.DelayUS) * time.Microsecond)
 	}
 	if name == "Write" && b.Hold {
 		// the payload must not have been disturbed by later frames while held
